@@ -40,6 +40,7 @@ def _simtime_case(rel, repeat):
         self_ = cx.obj(SimTimeCondition, _model=model, _threshold=th, _relation=rel, _repeat=r, _backtrack=0,
                        _first_time=0)
         cx.target(SimTimeCondition.evaluate, self_)
+        cx.region("le_landing_step", z3.And(cx.t(p) < cx.t(th), cx.t(th) < cx.t(c)) if cx.mode == "symbolic" else (p < th < c))
 
         def post(out):
             if not out.returned:
@@ -72,11 +73,15 @@ def _simtime_case(rel, repeat):
                     posts.append(("partial_step_to_threshold", z3.Implies(z3.And(P_ < TH, TH <= C_), B == C_ - TH)))
                 if rel in (Comparison.gt, Comparison.lt):
                     posts.append(("exact_interval", resz == _rel(rel, C_, TH)))
+                if rel in (Comparison.ge, Comparison.le):
+                    # rules ignore the backtrack: what a rule sees is the value at its evaluation time
+                    posts.append(("rule_sees_relation_at_evaluation_time", resz == _rel(rel, C_, TH)))
             posts.append(("backtrack_within_step", z3.And(B >= 0, z3.Implies(resz, B < C_ - P_))))
             return posts
         cx.ensure(post)
     nm = "rel=%s,repeat=%s" % (rel.name, repeat)
-    return Case(nm, build)
+    # add_leak's start/end controls are non-repeating '=' conditions: only that case carries C08
+    return Case(nm, build, properties=(P + ["C08"]) if (rel is Comparison.eq and repeat is None) else P)
 
 
 _sim_cases = [_simtime_case(rel, None) for rel in (Comparison.eq, Comparison.gt, Comparison.ge, Comparison.lt, Comparison.le)]
@@ -156,7 +161,7 @@ _tod_cases = [_tod_case(rel, rep, fdm) for rel in (Comparison.eq, Comparison.gt,
               for rep in (True, False) for fdm in ("zero", "sym")]
 
 CONTRACTS = [
-    Contract("wntr.network.controls:SimTimeCondition.evaluate", P + ["C08"], _sim_cases,
+    Contract("wntr.network.controls:SimTimeCondition.evaluate", P, _sim_cases,
              note="times are integers (seconds)"),
     Contract("wntr.network.controls:TimeOfDayCondition.evaluate", P, _tod_cases,
              note="times are integers; step length <= 1 day; shifted = sim + start_clocktime"),
